@@ -7,6 +7,7 @@
   oracle `checkRefs` on the implementation's output; the finalize half (update-ref batch, old
   names deleted) is covered by the end-to-end runs.
 -/
+import Frrs.Proofs.Stanza
 import Frrs.Oracle
 import Frrs.Proofs.Bytes
 import Frrs.Proofs.Codec
@@ -115,5 +116,23 @@ example : (runBytes { path := { paths := [b!"keep"] } }
     b!"feature done\ncommit refs/heads/main\nmark :1\noriginal-oid aa\ndata 0\nM 100644 e69de29bb2d1d6434b8b29ae775ad8c2e48c5391 keep\n\ncommit refs/heads/side\nmark :2\noriginal-oid bb\ndata 0\nfrom :1\nM 100644 e69de29bb2d1d6434b8b29ae775ad8c2e48c5391 drop\n\ndone\n").out
     = b!"feature done\ncommit refs/heads/main\nmark :1\noriginal-oid aa\ndata 0\nM 100644 e69de29bb2d1d6434b8b29ae775ad8c2e48c5391 keep\n\nalias\nmark :2\nto :1\n\nreset refs/heads/side\nfrom :1\n\ndone\n" := by
   decide +kernel
+
+/-! ### what the main loop does with a branch reset (for every input) -/
+
+/-- **a branch reset names the renamed branch**: outside a commit, `reset refs/heads/<name>` is written as `reset <renamed>`
+    when `--branch-rename` applies (and the pair is recorded for the ref-map), verbatim otherwise; the branch is noted as
+    updated under its final name, and the next `from` line is captured as its target -/
+theorem branch_reset_names_the_renamed_branch (o : FOpts) (s : FState) (name inp : Bytes)
+    (hn : startsWith name refsHeads = true) (ht : startsWith name refsTags = false) :
+    tailRules o s (b!"reset " ++ name ++ [B.lf]) inp =
+      (match renameIn refsHeads o.refs.branchRename name with
+       | some new_ =>
+         .cont ({ s with refRenames := setInsert (name, new_) s.refRenames,
+                         updatedBranchRefs := bsetInsert new_ s.updatedBranchRefs,
+                         pendingBranchReset := some new_ }.emit (b!"reset " ++ new_ ++ [B.lf])) inp
+       | none =>
+         .cont ({ s with updatedBranchRefs := bsetInsert name s.updatedBranchRefs,
+                         pendingBranchReset := some name }.emit (b!"reset " ++ name ++ [B.lf])) inp) :=
+  branch_reset_line o s name inp hn ht
 
 end Frrs.C03
